@@ -22,6 +22,8 @@ pub fn pttl_strategy() -> impl Strategy<Value = PCase> {
         1 => Just((1i64 << 31) + 1),
         1 => Just(i64::MAX),
         2 => 0i64..=i64::MAX,
+        // log-uniform magnitudes: seconds, days, years, ... in milliseconds
+        3 => (0u32..18).prop_flat_map(|k| 10i64.pow(k)..10i64.pow(k + 1)),
     ]
     .prop_map(|n| n.to_string().into_bytes());
     let malformed = prop_oneof![
@@ -53,7 +55,17 @@ pub fn check_ttl_argument(pttl: &[u8], ttl_arg: &[u8], path: &str) -> Result<&'s
         }
         Some(n) if n >= 0 && strict_decimal => {
             let t = std::str::from_utf8(ttl_arg).ok().and_then(|s| s.parse::<i64>().ok());
-            let class = if n == 0 { "pttl=0" } else if n == 1 { "pttl=1" } else if n >= (1 << 31) { "pttl>=2^31" } else { "pttl=small" };
+            let class = if n == 0 {
+                "pttl=0"
+            } else if n == 1 {
+                "pttl=1"
+            } else if n >= (1 << 31) {
+                "pttl>=2^31"
+            } else if n >= 86_400_000 {
+                "pttl>=1day"
+            } else {
+                "pttl=small"
+            };
             match t {
                 Some(t) if t >= 1 && t <= n.max(1) => Ok(class),
                 Some(0) => fail!(
@@ -112,6 +124,8 @@ pub fn path_strategy() -> impl Strategy<Value = PathCase> {
         2 => 1000u64..3000,
         2 => 3000u64..100000,
         2 => 1_000_000u64..100_000_000,
+        // hours .. centuries (log-uniform): a threshold anywhere on the scale is crossed
+        2 => (9u32..17).prop_flat_map(|k| 10u64.pow(k)..10u64.pow(k + 1)),
     ];
     (0u8..3, prop::collection::vec(ttl, 1..8), prop::collection::vec(prop_oneof![3 => Just(0u32), 2 => 0u32..400, 1 => 0u32..3000], 1..12), prop_oneof![Just(1u8), Just(2u8), Just(16u8)])
         .prop_map(|(path, ttls_us, delays, scan_count)| PathCase { path, ttls_us, delays, scan_count })
@@ -288,9 +302,9 @@ pub fn check_world(case: &c03::DCase, obs: &mut Obs) -> Result<(), Fail> {
     r
 }
 
-pub const RULE_PATH: &str = "[paths] the real migration between two real proxies with keys whose remaining time-to-live is generated (persistent, < 1 ms so that PTTL reads 0 on the virtual clock, 1..3 ms, ms..s, long), transferred by a forced path: scan only / on-demand pull (SCAN held, GET at the destination) / push (SCAN held, a deleting-type command at the destination -> UMSYNC); [worlds] random C03 worlds with expiring keys; oracle from the stand-in logs: every RESTORE reaching the destination is justified by an earlier PTTL reply p for that key on the source (p=-1 -> ttl 0; p>=0 -> 1 <= ttl <= max(p,1), never 0); persistent keys stay persistent, keys with a TTL keep one; non-trivial = a key with a TTL was transferred; distinct = hash of the case";
+pub const RULE_PATH: &str = "[paths] the real migration between two real proxies with keys whose remaining time-to-live is generated (persistent, < 1 ms so that PTTL reads 0 on the virtual clock, 1..3 ms, ms..s, hours..centuries log-uniform), transferred by a forced path: scan only / on-demand pull (SCAN held, GET at the destination) / push (SCAN held, a deleting-type command at the destination -> UMSYNC); [worlds] random C03 worlds with expiring keys; oracle from the stand-in logs: every RESTORE reaching the destination is justified by an earlier PTTL reply p for that key on the source (p=-1 -> ttl 0; p>=0 -> 1 <= ttl <= max(p,1), never 0); persistent keys stay persistent, keys with a TTL keep one; non-trivial = a key with a TTL was transferred; distinct = hash of the case";
 
-pub const RULE_FN: &str = "[function] pttl_to_restore_expire_time over every class of PTTL reply (-2, -1, 0, 1, small, 2^31-1..2^31+1, 2^63-1, uniform positive, malformed bytes); oracle: -1 -> '0'; p >= 0 -> decimal t with 1 <= t <= max(p,1), never '0'; non-trivial = p >= 0; distinct = the reply bytes";
+pub const RULE_FN: &str = "[function] pttl_to_restore_expire_time over every class of PTTL reply (-2, -1, 0, 1, small, 2^31-1..2^31+1, 2^63-1, uniform positive, log-uniform magnitudes 10^0..10^18 ms, malformed bytes); oracle: -1 -> '0'; p >= 0 -> decimal t with 1 <= t <= max(p,1), never '0'; non-trivial = p >= 0; distinct = the reply bytes";
 
 pub fn run(ctx: &Ctx, findings: &Findings) -> PropReport {
     let mut subs = vec![];
